@@ -240,6 +240,11 @@ def err_matches(gerr, merr, oracle_msgs):
             unhex(merr["file"]).decode(), merr["index"], merr["line"], merr["col"])
     if gtrace != mtrace:
         return "include trace: impl %s model %s" % (gtrace, mtrace)
+    if "quote" in merr:
+        if merr["quote"] is None:
+            return "quote: the model predicts a crash while quoting, the implementation returned %r" % unhex(gerr["quote"])
+        if merr["quote"] != gerr["quote"]:
+            return "quote: impl %r model %r" % (unhex(gerr["quote"]), unhex(merr["quote"]))
     if fmt == "ORACLE":
         mid = int.from_bytes(bytes(args[0]), "big") if args and args[0] else -1
         want = oracle_msgs[mid] if 0 <= mid < len(oracle_msgs) else None
